@@ -61,14 +61,21 @@ def run_case(case):
     alt = [(i * 2 + 1) % n for i in range(n)] if n % 2 else list(range(n))[::-1]
     if sorted(alt) == list(range(n)) and alt != orders[0]:
         orders.append(alt)
-    probes64 = numpy.array(sorted(set(map(tuple, pts))) + [tuple(v + 0.5 for v in pts[0]), tuple(v - 1.0 for v in pts[-1])])
-    for oi, order in enumerate(orders):
-        for dtype in (numpy.float64, numpy.float32):
-            X = numpy.array([pts[i] for i in order], dtype=dtype)
+    probes_base = numpy.array(sorted(set(map(tuple, pts))) + [tuple(v + 0.5 for v in pts[0]), tuple(v - 1.0 for v in pts[-1])])
+    # (order, dtype, affine map): the same multiset translated far from the origin / in a tiny unit (float64 only):
+    # every clause of the L1 statement is invariant under x -> a*x + b
+    variants = [(oi, order, dt, 1.0, 0.0) for oi, order in enumerate(orders) for dt in (numpy.float64, numpy.float32)]
+    variants += [(0, orders[0], numpy.float64, 1.0, 1.0e6), (0, orders[0], numpy.float64, 1.0e-9, 0.0), (0, orders[0], numpy.float64, 1.0e-3, 1.0e3)]
+    for (oi, order, dtype, sc_a, sc_b) in variants:
+        if True:
+            X = (numpy.array([pts[i] for i in order], dtype=numpy.float64) * sc_a + sc_b).astype(dtype)
+            affine = (sc_a, sc_b) != (1.0, 0.0)
+            tolu = 1e-6 * sc_a
             lo, hi = X.min(axis=0), X.max(axis=0)
+            probes64 = probes_base * sc_a + sc_b
             for k in range(1, distinct + 1):
                 # explicit init: first k distinct points, and the k last distinct points
-                dp = sorted(set(map(tuple, pts)))
+                dp = sorted(set(map(tuple, X.astype(numpy.float64).tolist())))
                 inits = [("k-means++", None), ("random", None),
                          ("array", numpy.array(dp[:k], dtype=dtype)), ("array", numpy.array(dp[-k:], dtype=dtype))]
                 for iname, iarr in inits:
@@ -76,8 +83,10 @@ def run_case(case):
                         for n_init in ((1, 2) if iarr is None else (1,)):
                             if oi == 1 and (dtype is numpy.float32 or n_init == 2):
                                 continue
+                            if affine and (n_init == 2 or rs > 1):
+                                continue
                             init = iname if iarr is None else iarr
-                            dup = "duplicates" if distinct < n else "distinct points"
+                            dup = ("duplicates" if distinct < n else "distinct points") + (",affine image of the grid" if affine else "")
                             desc = "X=%r dtype=%s k=%d init=%s random_state=%d n_init=%d" % (
                                 X.tolist(), numpy.dtype(dtype).name, k, iname if iarr is None else iarr.tolist(), rs, n_init)
                             # ---------------- L1
@@ -101,19 +110,19 @@ def run_case(case):
                                 if C.shape != (k, X.shape[1]) or not numpy.isfinite(C).all():
                                     bad("L1 centres not finite", cond, "%r %s" % (C.tolist(), desc))
                                 else:
-                                    if (C < lo - 1e-12).any() or (C > hi + 1e-12).any():
+                                    if (C < lo - 1e-6 * tolu).any() or (C > hi + 1e-6 * tolu).any():
                                         bad("L1 centre outside data range", cond, "%r %s" % (C.tolist(), desc))
                                     D = _man(X, C)
                                     if lab.shape != (n,) or lab.min() < 0 or lab.max() >= k:
                                         bad("L1 labels invalid", cond, "%r %s" % (lab.tolist(), desc))
                                     else:
                                         own = D[numpy.arange(n), lab]
-                                        if (own > D.min(axis=1) + 1e-6).any():
+                                        if (own > D.min(axis=1) + tolu).any():
                                             i = int(numpy.argmax(own - D.min(axis=1)))
                                             bad("L1 label is not a nearest centre", cond,
                                                 "point %r label %d dist %r nearest %r centres %r %s" % (
                                                     X[i].tolist(), lab[i], own[i], D[i].min(), C.tolist(), desc))
-                                        if abs(float(m.inertia_) - D.min(axis=1).sum()) > 1e-5 * max(1.0, D.min(axis=1).sum()):
+                                        if abs(float(m.inertia_) - D.min(axis=1).sum()) > 1e-5 * max(sc_a, D.min(axis=1).sum()):
                                             bad("L1 inertia_ != sum of distances to nearest centre", cond,
                                                 "%r vs %r %s" % (m.inertia_, D.min(axis=1).sum(), desc))
                                     P = probes64.astype(dtype)
@@ -121,14 +130,14 @@ def run_case(case):
                                         pl = numpy.asarray(m.predict(P))
                                         T = numpy.asarray(m.transform(P))
                                         DP = _man(P, C)
-                                        if T.shape != DP.shape or numpy.abs(T - DP).max() > 1e-5:
+                                        if T.shape != DP.shape or numpy.abs(T - DP).max() > 1e-5 * max(sc_a, abs(sc_b) * 1e-6 + sc_a):
                                             bad("L1 transform != Manhattan distances", cond, desc)
-                                        if (DP[numpy.arange(len(P)), pl] > DP.min(axis=1) + 1e-6).any():
+                                        if (DP[numpy.arange(len(P)), pl] > DP.min(axis=1) + tolu).any():
                                             bad("L1 predict not a nearest centre", cond, desc)
                                     except Exception as e:
                                         bad("L1 predict/transform raises %s" % type(e).__name__, cond, "%s %s" % (e, desc))
                             # ---------------- L2
-                            if oi == 0:
+                            if oi == 0 and not affine:
                                 cnt += 1
                                 try:
                                     ref = KMeans(n_clusters=k, init=init, random_state=rs, n_init=n_init).fit(X)
